@@ -1012,3 +1012,149 @@ def allwrite_result_sites(db, rep, prog):
             bad.setdefault('flush-returns-allwrite', ('5 bytes buffered, write results %s: substdio_flush() returns %s and leaves %s byte(s) in the buffer; documented %s and an empty buffer' % (script, one(val), one(store.get('SS.p')), want_r), tr))
     return {k: (k not in bad, 'substdo.c', bad[k][0] if k in bad else 'scripted write results', bad[k][1] if k in bad else [])
             for k in ('allwrite:0=everything-written,-1=error,short-writes-and-EINTR-retried', 'flush-returns-allwrite')}
+
+
+# =============================================================================== lock.h: the three lock operations
+def lock_sites(db, rep, prog, which=('lock_ex', 'lock_exnb', 'lock_un')):
+    """lock_ex waits for an exclusive lock, lock_exnb takes it or fails at once, lock_un releases: the request that reaches
+    flock()/lockf() is evaluated (flock: LOCK_EX=2, LOCK_NB=4, LOCK_UN=8; lockf: F_ULOCK=0, F_LOCK=1, F_TLOCK=2, F_TEST=3 only tests)"""
+    want = {'lock_ex': {('flock', 2), ('lockf', 1)}, 'lock_exnb': {('flock', 6), ('lockf', 2)}, 'lock_un': {('flock', 8), ('lockf', 0)}}
+    what = {'lock_ex': 'waits for the exclusive lock (concurrent mbox deliveries are serialised)', 'lock_exnb': 'takes the exclusive lock or fails at once (a second daemon must be refused)',
+            'lock_un': 'releases the lock'}
+    names = {('flock', 2): 'LOCK_EX', ('flock', 6): 'LOCK_EX|LOCK_NB', ('flock', 8): 'LOCK_UN', ('flock', 4): 'LOCK_NB', ('flock', 1): 'LOCK_SH', ('flock', 5): 'LOCK_SH|LOCK_NB',
+             ('lockf', 0): 'F_ULOCK', ('lockf', 1): 'F_LOCK', ('lockf', 2): 'F_TLOCK', ('lockf', 3): 'F_TEST (tests, never acquires)'}
+    out = {}
+    for name in which:
+        fn = prog.fn(name) if hasattr(prog, 'fn') else None
+        if fn is None:
+            raise AnalysisBroken('%s not linked into %s' % (name, getattr(prog, 'name', '?')))
+        seen = []
+
+        class LH(Conc):
+            def _req(self, E, x, args):
+                seen.append((x.callee, _one(args[0]), _one(args[1]), _one(args[2]) if len(args) > 2 else None))
+                return [Outcome(ret=fs(0))]
+            prim_flock = prim_lockf = _req
+        H = LH(name)
+        _run_conc(db, rep, prog, fn, {0: fs(7)}, name, H)
+        ok = len(seen) == 1 and len(H.ends) == 1 and seen[0][1] == 7 and (seen[0][0], seen[0][2]) in want[name] and (seen[0][0] != 'lockf' or seen[0][3] == 0) and one(H.ends[0][1]) == 0
+        shown = ', '.join('%s(fd %s, %s%s)' % (c, f, names.get((c, r), r), '' if c == 'flock' else ', %s' % l) for c, f, r, l in seen) or 'no lock request'
+        out['%s:%s' % (name, {'lock_ex': 'blocking-exclusive', 'lock_exnb': 'non-blocking-exclusive', 'lock_un': 'unlock'}[name])] = (
+            ok, '%s:%s' % (fn.unit, name), '%s(fd) issues %s and returns %s; documented: %s - flock %s or lockf %s on that descriptor, its result returned' % (
+                name, shown, [one(e[1]) for e in H.ends], what[name], *[names[k] for k in sorted(want[name])]), [])
+    return out
+
+
+# =============================================================================== commands(): one line -> one handler
+def commands_sites(db, rep, progname='qmail-pop3d', unit='qmail-pop3d.c', table='pop3commands'):
+    """commands() run on scripted lines against the program's real command table: a line selects the entry whose verb equals its
+    first word up to case - the whole word, nothing shorter - else the catch-all entry; the handler is handed the text behind the
+    blanks; the line may end in LF or CRLF; nothing outside the line buffer is looked at"""
+    prog = db.program(progname)
+    fn = db.fn('commands.c', 'commands')
+    tab = db.unit(unit).globals.get(table)
+    if not tab or tab.get('init', {}).get('k') != 'list':
+        raise AnalysisBroken('%s[] initialiser not found' % table)
+    verbs = {}
+    other = None
+    flushers = set()
+    cells = {}      # the table as the program's initialiser fills it (its address may be taken, so it is handed over explicitly)
+    for row in tab['init']['v']:
+        r = row['v']
+        name = r[0].get('v') if r[0].get('k') == 'str' else None
+        fnm = r[1].get('v')[2:] if r[1].get('k') == 'fn' else None
+        k_ = len(cells) // 3
+        cells['G:%s[%d].text' % (table, k_)] = fs(('str', name)) if name is not None else fs(0)
+        cells['G:%s[%d].fun' % (table, k_)] = fs(('fn', fnm))
+        cells['G:%s[%d].flush' % (table, k_)] = fs(('fn', r[2].get('v')[2:])) if len(r) > 2 and r[2].get('k') == 'fn' else fs(0)
+        if len(r) > 2 and r[2].get('k') == 'fn':
+            flushers.add(r[2].get('v')[2:])
+        if name is None:
+            other = fnm
+        else:
+            verbs.setdefault(name.lower(), fnm)
+    if other is None or len(verbs) < 3:
+        raise AnalysisBroken('%s[]: no catch-all entry' % table)
+    some = sorted(verbs)
+    v1, v2 = some[0], some[-1]
+    lines = [(v1.upper() + ' 1\r\n', verbs[v1], b'1'), (v1 + '  2\n', verbs[v1], b'2'), ('\n', other, b''), ('\r\n', other, b''), (v1[:1] + ' 1\n', other, b'1'),
+             (v1[:-1] + '\n', other, b''), (v1 + 'x\n', other, b''), (v2.capitalize() + '\r\n', verbs[v2], b''), (v2 + ' x y\n', verbs[v2], b'x y'), (' ' + v2 + '\n', other, v2.encode()),
+             (v1 + '\r\r\n', other, b'')]
+    bad = {}
+    calls_seen = 0
+    for text, want_fn, want_arg in lines:
+        data = text.encode('latin-1')
+        calls = []
+
+        class CH(SAConc, Conc):
+            over = None
+
+            def prim_substdio_get(self, E, x, args):
+                k = _one(E.get('$k')) or 0
+                p, n = _one(args[1]), _one(args[2])
+                if k >= len(data) or n != 1 or not isinstance(p, tuple):
+                    return [Outcome(ret=fs(0))]
+                return [Outcome(ret=fs(1), sets={p[1]: fs(data[k] - 256 if data[k] >= 128 else data[k]), '$k': fs(k + 1)})]
+
+            def materialize(self, E, path):
+                if '.s[' in path and self.over is None:
+                    CH.over = (path, E.trace.list())
+                return fs(0) if '.s[' in path else Conc.materialize(self, E, path)
+
+            def materialize_split(self, E, path):
+                return None
+        for h_ in set(verbs.values()) | {other}:
+            def mk(h_):
+                def prim(self, E, x, args):
+                    calls.append((h_, self.cstring(E, _one(args[0])) if args else None))
+                    return [Outcome(ret=TOP)]
+                return prim
+            setattr(CH, 'prim_' + h_, mk(h_))
+        for f_ in flushers:
+            setattr(CH, 'prim_' + f_, lambda self, E, x, args: [Outcome(ret=TOP)])
+        H = CH('commands')
+        st_ = {0: fs(('&', 'SSIN')), 1: fs(('&', 'G:%s[0]' % table))}
+        st_.update(cells)
+        _run_conc(db, rep, prog, fn, st_, 'commands', H)
+        calls_seen += len(calls)
+        if CH.over is not None:
+            bad.setdefault('commands:line-buffer-bounds', ('line %r: %s is read, which no byte of the line was stored into' % (text, CH.over[0].split('::')[-1]), CH.over[1]))
+        if calls != [(want_fn, want_arg)]:
+            bad.setdefault('commands:whole-verb-selects-the-handler', ('line %r: handlers called %s; documented: %s(%r) (%s)' % (
+                text, calls, want_fn, want_arg, 'the catch-all entry: the first word is not a verb of the table' if want_fn == other else 'the entry whose verb equals the first word up to case'), []))
+    if not calls_seen and not bad:
+        raise AnalysisBroken('commands(): no handler call explored')
+    out = {}
+    for k in ('commands:whole-verb-selects-the-handler', 'commands:line-buffer-bounds'):
+        out[k] = (k not in bad, 'commands.c:commands', bad[k][0] if k in bad else '%d scripted lines against %s[]' % (len(lines), table), bad[k][1] if k in bad else [])
+    return out
+
+
+# =============================================================================== rules decided under another property
+def borrow(ctx, modname, rules):
+    """runs another property's rule file on the same program database and hands back the instances of the named rules:
+    {rule/instance: (ok, where, detail, path)} - for clauses two properties share (the deciding code stays in one place)"""
+    import importlib
+    from qv.report import Report
+    sub = Report(modname, ctx.tier)
+    class C2:
+        pass
+    c2 = C2()
+    c2.__dict__.update(ctx.__dict__)
+    c2.report = sub
+    c2.deep = ctx.deep
+    try:
+        importlib.import_module('rules.' + modname).run(c2)
+    except AnalysisBroken:
+        if not sub.violations:
+            raise
+    ctx.report.count_states(sub.states, sub.transitions)
+    paths = {(v['rule'], v['instance']): v['path'] for v in sub.violations}
+    out = {}
+    for r in sub.rules:
+        if r.name in rules:
+            for inst, ok, where, detail in r.instances:
+                out['%s/%s' % (r.name, inst)] = (ok, where, detail, paths.get((r.name, inst), []))
+    if not out:
+        raise AnalysisBroken('%s: rules %s produced no instance' % (modname, sorted(rules)))
+    return out
